@@ -3,6 +3,7 @@ import WellenModel.Proofs.Stream
 import WellenModel.Proofs.Block
 import WellenModel.Proofs.Tables
 import WellenModel.Model.Spec
+import WellenModel.Proofs.Refine
 /-!
 # C04 — storage is transparent: packing, compression and segmentation never alter data
 
@@ -15,8 +16,13 @@ What is proved here, for all widths / kinds / values (no bounds):
 * LEB128 numbers round-trip in front of any remaining stream (`C04_leb_roundtrip`);
 * rendered characters are the lower-cased characters written, independent of the kind used for
   storage (`C04_char_faithful`, table-driven, regenerated from the code on every run).
-The stream / block level (delta accumulation over blocks, offsets, compression flag) is tied to the
-specification `Spec.run` by the differential run only (see `level_note`).
+Stream / block level: `C04_stream_*`, `C04_block_slice`, `C04_meta_*`, `C04_single_block_load*`, `C04_multi_block_load`.
+END TO END (`C04_store_refines_spec`): for VCD vector signals of two or more bits the whole store — encoder bookkeeping
+(time steps, skipping, block roll-over), chunk streams, `finish`, offsets, meta words, the compression decision, the
+loader with its alignment and de-duplication — is proved equal to the abstract specification `Spec.run` for every
+history and every block size. One-bit signals, reals, strings and the pre-encoded (GHW) write path are proved per
+block (`C04_*_block_roundtrip`, `C04_single_block_load_*`); their composition across blocks is tied to `Spec.run` by
+the differential run.
 -/
 namespace Wellen.Store
 open Wellen.Bits
@@ -234,6 +240,62 @@ theorem C04_encoder_chunk (ti : Nat) (value : List Nat) (st : States) (s s' : Si
   split at h
   · cases h
   · cases h; exact ⟨_, _, rfl⟩
+
+/-- **the store refines the specification** (VCD vector signals, two or more bits): whenever the specification denotes a waveform
+`(tt, sigs)` for a history and the store accepts it, the finished store has exactly the time table `tt`, and loading signal `i`
+yields exactly the change list `sigs[i]` — the time index of every change, and for every change an entry that decodes to the
+smallest sufficient kind and the symbols of its value. For ANY history (repeated / backwards timestamps, several changes per
+step, redundant writes, other signals of any type in between), ANY block size (`c.blockMax`: roll-over at every multiple) and ANY
+compression decision (`c.wantCompress`). `hsmall`: no block beyond 2^36 bytes (32-bit compressed-length field). -/
+theorem C04_store_refines_spec (c : Codec) (bits i : Nat) (hb2 : 2 ≤ bits) (hbm : 1 ≤ c.blockMax) (hbmax : c.blockMax ≤ 2 ^ 30)
+    (tps : List SigType) (hti : tps[i]? = some (.bitvec bits)) (ops : List Spec.Op)
+    (hraw : ∀ op ∈ ops, ∀ st b, op ≠ .raw i st b)
+    (e : Enc) (he : Spec.runOps c (newEnc tps) ops = some e)
+    (tt : List Nat) (sigs : List (List (Nat × Spec.Value))) (hrun : Spec.run tps ops = some (tt, sigs))
+    (hsmall : ∀ b ∈ (finish c e).1.blocks, b.data.length < 2 ^ 36) :
+    (finish c e).2 = tt ∧
+    ∃ sigS chg, sigs[i]? = some chg ∧
+      loadSignal (finish c e).1 i (.bitvec bits) =
+        some { maxStates := sigS, times := chg.map (·.1), entries := chg.map (entryOf bits sigS) } ∧
+      ∀ x ∈ chg, ∃ syms d, x.2 = .bits syms ∧
+        decodeEntry sigS bits (getLenAndMeta sigS bits).2 (entryOf bits sigS x) = some (Spec.kindOf syms, d) ∧
+        toSyms (Spec.kindOf syms) d bits = syms := by
+  obtain ⟨s, hs, htt, hsigs⟩ := run_fold tps ops tt sigs hrun
+  constructor
+  · -- time table: both are the strictly increasing prefix maxima of the timestamps
+    obtain ⟨hi0, ht0⟩ := Spec.newEnc_inv tps
+    obtain ⟨hi, ht⟩ := Spec.runOps_table c ops (newEnc tps) e [] hi0 (by rw [ht0]; rfl) he
+    rw [Spec.finish_table c e hi, ht, htt]
+    have := spec_table tps.toArray ops (specInit tps) s [] rfl hs
+    rw [this]
+  · obtain ⟨sigS, hload, hwf⟩ := store_load_vector_canon c bits i hb2 hbm hbmax tps hti ops hraw e he s hs hsmall
+    have hext := Spec.fold_ext tps.toArray ops (specInit tps) s rfl hs
+    have hsize : s.changesRev.size = tps.length := by rw [hext.size]; simp [specInit]
+    have hilt : i < tps.length := by
+      have := List.getElem?_eq_some_iff.mp hti
+      exact this.1
+    have hget : s.changesRev.getD i [] = s.changesRev.toList[i]'(by simpa [hsize] using hilt) := by
+      simp [Array.getD_eq_getD_getElem?, hsize, hilt]
+    refine ⟨sigS, Spec.canon (s.changesRev.getD i []).reverse, ?_, hload, ?_⟩
+    · rw [hsigs, List.getElem?_map, hget]
+      simp [hsize, hilt]
+    · intro x hx
+      have hx' := (Spec.canon_sublist _).subset hx
+      obtain ⟨syms, d, h1, h2, h3⟩ := entryOf_decodes bits hb2 sigS x.1 x.2 (hwf x hx')
+      exact ⟨syms, d, h1, h2, h3⟩
+
+/-! non-vacuity of `C04_store_refines_spec`: a history with a repeated and a backwards timestamp, a redundant write, a shortened
+token, a second signal of another type and a block roll-over (block size 2) is accepted by the store and by the specification -/
+def nvC : Codec := { wantCompress := fun _ => false, blockMax := 2 }
+def nvOps : List Spec.Op :=
+  [.time 5, .vcd 0 [98, 49, 48, 49] none, .real 1 [0, 0, 0, 0, 0, 0, 0, 0], .time 5, .vcd 0 [98, 120, 49] none, .time 3,
+   .vcd 0 [98, 49, 49, 49] none, .time 9, .vcd 0 [98, 120, 49] none, .time 12, .vcd 0 [98, 49] none, .vcd 0 [66, 48, 48, 49] none]
+example : (Spec.runOps nvC (newEnc [.bitvec 3, .real]) nvOps).isSome = true := by decide +kernel
+example : Spec.run [.bitvec 3, .real] nvOps =
+    some ([5, 9, 12], [[(0, .bits [1, 0, 1]), (0, .bits [2, 2, 1]), (2, .bits [0, 0, 1])], [(0, .real [0, 0, 0, 0, 0, 0, 0, 0])]]) := by
+  decide +kernel
+example : ((Spec.runOps nvC (newEnc [.bitvec 3, .real]) nvOps).map fun e =>
+    ((finish nvC e).1.blocks.map (·.data.length), (finish nvC e).2)) = some ([17, 5], [5, 9, 12]) := by decide +kernel
 
 /-! non-vacuity -/
 example : ∀ c ∈ [((0 : Nat), States.two, [(5 : Nat)]), (3, States.four, [10])],
